@@ -384,7 +384,12 @@ class Generator:
                 co += canary
         it.canary_full = join(co)
         it.n_canaries = len(cpos)
-        it.stub = '#[verifier::external_body]\n' + join(header) + '{ unimplemented!() }\n'
+        if it.kind == 'const' and impl is None:
+            # module-level `exec const`: rustc const-evaluates the initialiser even under external_body,
+            # so the stub keeps the real initialiser (trusted outside the home unit, proved inside it)
+            it.stub = '#[verifier::external_body]\n' + it.full + '\n'
+        else:
+            it.stub = '#[verifier::external_body]\n' + join(header) + '{ unimplemented!() }\n'
         gt = []
         for _, g in ghosts:
             gt += g
